@@ -217,7 +217,7 @@ def frame_obligations(V, X, c, ev0, H0, hp, rr, pkg):
                     continue   # only stack locals of that type were allocated
                 V.add_obl('frame', newv == oldv, rr, label='alloc.' + name, text='allocates clause does not list ' + hk[1])
             continue
-        if hk[0] == 'ghost' and (str(hk[1]).startswith('visited_') or str(hk[1]).startswith('ncalls_') or str(hk[1]).startswith('fncalls_') or str(hk[1]).startswith('fnarg')):
+        if hk[0] == 'ghost' and (str(hk[1]).startswith('visited_') or str(hk[1]).startswith('ncalls_') or str(hk[1]).startswith('fncalls_') or str(hk[1]).startswith('fnarg') or str(hk[1]).startswith('entered_L')):
             continue       # verification bookkeeping (keys delivered by a map range, call counters of flag countcalls): not program state
         if hk[0] == 'g' or (hk[0] == 'ghost' and len(hk) <= 3):
             if hk not in targets:
